@@ -116,6 +116,11 @@ Theorem C03_before_fix_differs_only_on_two_labels : forall a b,
   length (snd a) <> 2%nat -> key_cmp_before_fix a b = key_cmp a b.
 Proof. exact cmp_before_fix_same_unless_two. Qed.
 
+Theorem C03_before_fix_differs_only_when_two_labels_share_a_name : forall n1 n2 a0 a1 b0 b1,
+  fst a0 <> fst a1 -> fst b0 <> fst b1 ->
+  key_cmp_before_fix (n1, [a0; a1]) (n2, [b0; b1]) = key_cmp (n1, [a0; a1]) (n2, [b0; b1]).
+Proof. exact cmp_before_fix_same_when_names_differ. Qed.
+
 (* the NoDup hypothesis of C03_label_order_irrelevant cannot be dropped for three or more labels:
    labels sharing a name keep their supplied order in the canonical form (stable sort by name only) *)
 Theorem C03_label_order_matters_with_repeated_names :
